@@ -522,6 +522,16 @@ func VerifH19() {
 			return nil
 		}))
 	}
+	// AUTH=1: clear-text password authentication whose validator accepts and
+	// hands back a context of its own making (derived from the one it was given,
+	// carrying one more value): that context is the session's from then on
+	withAuth := vParam("AUTH", 0) == 1 && nondetBool()
+	if withAuth {
+		opts = append(opts, SessionAuthStrategy(ClearTextPassword(func(ctx context.Context, db, user, pw string) (context.Context, bool, error) {
+			return context.WithValue(ctx, vKey(99), 99), true, nil
+		})))
+		vReach("validator-returns-a-derived-context")
+	}
 	customCaches := nondetBool() // configuration: user-supplied statement and portal caches
 	if customCaches {
 		opts = append(opts, Statements(func() StatementCache { return &vStmtCache{m: map[string]*Statement{}} }),
@@ -531,6 +541,9 @@ func VerifH19() {
 	vAssert("newserver-ok", err == nil)
 
 	input := vStartup(vKV([]byte("user"), []byte("u")))
+	if withAuth {
+		input = vCat(input, vMsgBytes('p', vCStr([]byte("pw"))))
+	}
 	sawX := false
 	nX := 0
 	for k := 0; k < K; k++ {
@@ -568,6 +581,9 @@ func VerifH19() {
 		vAssert("registration-order", order[i] == i)
 		pre := vTypes(conn.out[:outAtMw[i]])
 		vAssert("middleware-after-auth-and-parameters", len(pre) >= 1 && pre[0] == 'R' && vCount(pre, 'S') >= 4)
+		if withAuth {
+			vAssert("middleware-after-AuthenticationOk", vHasAuthOK(conn.out[:outAtMw[i]]))
+		}
 		vAssert("middleware-before-first-ReadyForQuery", vCount(pre, 'Z') == 0)
 	}
 	if failAt >= 0 {
@@ -586,6 +602,11 @@ func VerifH19() {
 			v, ok := e.ctx.Value(vKey(j)).(int)
 			vAssert("callback-context-carries-middleware-values", ok && v == j)
 		}
+		if withAuth {
+			v, ok := e.ctx.Value(vKey(99)).(int)
+			vAssert("callback-context-carries-the-validator's-value", ok && v == 99)
+		}
+		vAssert("callback-context-live-while-the-command-runs", e.live)
 		vAssert("callback-context-client-parameters", ClientParameters(e.ctx)["user"] == "u")
 		vAssert("callback-context-server-parameters", ServerParameters(e.ctx)[ParamServerEncoding] == "UTF8")
 		vAssert("callback-context-remote-address", RemoteAddress(e.ctx) != nil)
